@@ -26,6 +26,29 @@ func dnssecKind(k string) bool {
 	return false
 }
 
+// classOf groups the topology kinds into the classes the statement names.
+func classOf(kind string) string {
+	switch kind {
+	case "cname-cycle", "dname-cycle", "ns-cycle", "self-referral":
+		return "cycle"
+	case "cname-chain", "dname-chain", "ns-chain":
+		return "chain"
+	case "fanout", "fanout2":
+		return "fanout"
+	case "deep-infinite", "deep-chain":
+		return "deep-referral"
+	case "lame":
+		return "lame"
+	case "huge-ns", "huge-ds", "huge-dnskey", "huge-rrsig", "keycrowd":
+		return "huge-set"
+	case "nsec3-iter":
+		return "nsec3-iterations"
+	}
+	return "other"
+}
+
+var classes = []string{"cycle", "chain", "fanout", "deep-referral", "lame", "huge-set", "nsec3-iterations"}
+
 // stackConfigs is the list of resolver configurations run, one after the
 // other on fresh stacks, against one topology.
 func stackConfigs(rng *rand.Rand, t *TopoSpec) []StackCfg {
@@ -80,11 +103,13 @@ type stackResult struct {
 	q1, q2 *QueryObs
 }
 
+func (s *stackResult) watchdog() bool {
+	return s.q1 == nil || s.q1.Watchdog || (s.q2 != nil && s.q2.Watchdog)
+}
+
 func sameCodes(a, b []uint16) bool {
-	x := append([]uint16(nil), a...)
-	y := append([]uint16(nil), b...)
-	sort.Slice(x, func(i, j int) bool { return x[i] < x[j] })
-	sort.Slice(y, func(i, j int) bool { return y[i] < y[j] })
+	x := dedupCodes(a)
+	y := dedupCodes(b)
 	if len(x) != len(y) {
 		return false
 	}
@@ -96,6 +121,57 @@ func sameCodes(a, b []uint16) bool {
 	return true
 }
 
+// dedupCodes is the sorted SET of EDE info codes (sdns attaches the same
+// option twice on some paths; that is not what this property is about).
+func dedupCodes(a []uint16) []uint16 {
+	x := append([]uint16(nil), a...)
+	sort.Slice(x, func(i, j int) bool { return x[i] < x[j] })
+	out := x[:0]
+	for i, c := range x {
+		if i == 0 || c != x[i-1] {
+			out = append(out, c)
+		}
+	}
+	return out
+}
+
+// runStack builds a fresh stack for cfg, asks the topology's question as two
+// different clients, one after the other, and closes the stack. nil = the
+// stack could not be brought up (already recorded as inconclusive).
+func (run *runner) runStack(w *world, cfg StackCfg) *stackResult {
+	st := run.startStack(w, cfg)
+	if st == nil {
+		return nil
+	}
+	defer st.close()
+	res := &stackResult{cfg: cfg}
+	res.q1 = st.ask("127.0.0.1:40001", w.spec.Question)
+	if !res.q1.Watchdog {
+		// the identical question from another client
+		res.q2 = st.ask("127.0.0.2:40002", w.spec.Question)
+	}
+	run.r.Count("stacks/"+cfg.Mode, 1)
+	return res
+}
+
+// replyDiff compares what the property calls "the reply" — rcode, answer
+// multiset, AD, EDE info codes — of the same query on two stacks. "" = equal.
+func replyDiff(a, b *stackResult) string {
+	for i, p := range [][2]*QueryObs{{a.q1, b.q1}, {a.q2, b.q2}} {
+		x, y := p[0], p[1]
+		if x == nil || y == nil || x.reply == nil || y.reply == nil {
+			if (x == nil || x.reply == nil) != (y == nil || y.reply == nil) {
+				return fmt.Sprintf("query %d: one stack replied, the other did not", i+1)
+			}
+			continue
+		}
+		if x.outcome() != y.outcome() || !sameCodes(x.edeCodes, y.edeCodes) {
+			return fmt.Sprintf("query %d: [%s ede=%v] vs [%s ede=%v]", i+1, x.outcome(), x.EDE, y.outcome(), y.EDE)
+		}
+	}
+	return ""
+}
+
 // topology runs and judges one generated topology.
 func (run *runner) topology(index int) {
 	r := run.r
@@ -103,8 +179,10 @@ func (run *runner) topology(index int) {
 	spec := genTopo(rng, index)
 	w := buildWorld(spec)
 	defer w.close()
+	class := classOf(spec.Kind)
 	r.Count("topologies", 1)
 	r.Count("kind/"+spec.Kind, 1)
+	r.Count("class/"+class+"/topologies", 1)
 	r.DistinctIn("topology_shapes", spec.shape())
 	if debug {
 		fmt.Fprintf(os.Stderr, "T%d %s resolvable=%v deterministic=%v q=%s lame=%v\n", index, spec.shape(), spec.Resolvable, spec.Deterministic, spec.Question, spec.Lame)
@@ -112,22 +190,16 @@ func (run *runner) topology(index int) {
 
 	cfgs := stackConfigs(rng, spec)
 	results := map[string]*stackResult{}
+	var order []*stackResult
 	for _, cfg := range cfgs {
-		st := run.startStack(w, cfg)
-		if st == nil {
+		res := run.runStack(w, cfg)
+		if res == nil {
 			return
 		}
-		res := &stackResult{cfg: cfg}
-		res.q1 = st.ask("127.0.0.1:40001", spec.Question)
-		if !res.q1.Watchdog {
-			// the identical question from another client
-			res.q2 = st.ask("127.0.0.2:40002", spec.Question)
-		}
-		run.judgeStack(st, res)
-		st.close()
 		results[cfg.Label] = res
-		r.Count("stacks/"+cfg.Mode, 1)
-		if res.q1.Watchdog || (res.q2 != nil && res.q2.Watchdog) {
+		order = append(order, res)
+		run.judgeReplies(w, res)
+		if res.watchdog() {
 			return // a wedged pipeline: nothing more can be learnt in this process state
 		}
 	}
@@ -136,7 +208,10 @@ func (run *runner) topology(index int) {
 	if off == nil || sh == nil || off.q1.reply == nil {
 		return
 	}
-	// what the data "really" resolves to
+	// Is the generator's claim "this data resolves" true for this resolver
+	// when nothing is budgeted? (classification of the TOPOLOGY; it decides
+	// only where the follow-up and EDE checks are applicable, never whether a
+	// budget was crossed in some other run)
 	resolvable := spec.Resolvable && !off.q1.servfail()
 	if spec.Resolvable && off.q1.servfail() {
 		r.Count("unexpected_unresolvable/"+spec.Kind, 1)
@@ -144,129 +219,164 @@ func (run *runner) topology(index int) {
 			fmt.Fprintf(os.Stderr, "T%d NOTE: resolvable topology answered SERVFAIL with the firewall off: %v\n", index, off.q1.EDE)
 		}
 	}
-
-	// ---- metamorphic: shadow == off --------------------------------------
-	if spec.Deterministic {
-		pairs := [][2]*QueryObs{{off.q1, sh.q1}, {off.q2, sh.q2}}
-		compared := false
-		for i, p := range pairs {
-			a, b := p[0], p[1]
-			if a == nil || b == nil || a.reply == nil || b.reply == nil {
-				continue
-			}
-			compared = true
-			r.Eval(1)
-			r.Count("off_shadow_queries_compared", 1)
-			if a.outcome() != b.outcome() || !sameCodes(a.edeCodes, b.edeCodes) {
-				c := ReplayCase{Seed: r.Seed, Index: index, Topology: spec, Stack: &sh.cfg, Obs: b, Ref: a}
-				r.Violation("metamorphic/shadow-reply-differs-from-off",
-					fmt.Sprintf("query %d of %s: firewall off gave [%s ede=%v], shadow gave [%s ede=%v]", i+1, spec.shape(), a.outcome(), a.EDE, b.outcome(), b.EDE), c)
-			}
-		}
-		if compared {
-			r.Count("off_shadow_pairs_compared", 1)
-		}
+	if resolvable {
+		r.Count("resolvable_topologies", 1)
 	}
+
+	// ---- metamorphic: shadow == off ------------------------------------------
 	if len(sh.q1.Exhausted) > 0 || (sh.q2 != nil && len(sh.q2.Exhausted) > 0) {
 		r.Count("shadow_stacks_with_budget_crossing", 1)
 	}
+	if spec.Deterministic {
+		r.Eval(1)
+		r.Count("off_shadow_pairs_compared", 1)
+		if sh.q1.reply != nil {
+			r.Count("off_shadow_queries_compared", 1)
+		}
+		if sh.q2 != nil && sh.q2.reply != nil && off.q2 != nil && off.q2.reply != nil {
+			r.Count("off_shadow_queries_compared", 1)
+		}
+		if len(sh.q1.Exhausted) > 0 {
+			r.Count("off_shadow_pairs_compared_with_shadow_crossing", 1)
+		}
+		if d := replyDiff(off, sh); d != "" {
+			// The resolver races servers and detached helpers; before calling
+			// a difference a violation, separate noise from a persistent
+			// difference: run both configurations again on fresh stacks.
+			r.Count("off_shadow_differences_rechecked", 1)
+			off2 := run.runStack(w, off.cfg)
+			var sh2 *stackResult
+			if off2 != nil && !off2.watchdog() {
+				sh2 = run.runStack(w, sh.cfg)
+			}
+			switch {
+			case off2 == nil || sh2 == nil || off2.watchdog() || sh2.watchdog():
+				// already inconclusive
+			case replyDiff(off, off2) == "" && replyDiff(sh, sh2) == "" && replyDiff(off2, sh2) != "":
+				c := ReplayCase{Seed: r.Seed, Index: index, Topology: spec, Stack: &sh.cfg, Obs: sh.q1, Ref: off.q1,
+					Extra: map[string]any{"difference": d, "difference_on_rerun": replyDiff(off2, sh2), "off_q2": off.q2, "shadow_q2": sh.q2}}
+				r.Violation("metamorphic/shadow-reply-differs-from-off",
+					fmt.Sprintf("%s: firewall off and shadow (outbound budget %d) reply differently, reproducibly on fresh stacks — %s", spec.shape(), sh.cfg.outboundBudget(), d), c)
+			default:
+				r.Count("off_shadow_nondeterministic_difference_discarded", 1)
+				if debug {
+					fmt.Fprintf(os.Stderr, "T%d NOTE: off/shadow difference not reproducible: %s\n", index, d)
+				}
+			}
+		}
+	}
 
-	// ---- enforce: the budget may only turn the outcome into SERVFAIL(+EDE),
-	//      and that failure is the request's own ----------------------------
-	for _, label := range []string{"enforce-small", "enforce-mid", "enforce-default", "enforce-dnssec"} {
-		e := results[label]
-		if e == nil || e.q1.reply == nil {
+	// ---- enforce: what happens when THIS request tree crossed a budget ---------
+	for _, e := range order {
+		if e.cfg.Mode != "enforce" {
 			continue
 		}
-		for qi, pair := range [][2]*QueryObs{{off.q1, e.q1}, {off.q2, e.q2}} {
-			ref, obs := pair[0], pair[1]
-			if ref == nil || obs == nil || obs.reply == nil || ref.reply == nil {
+		for qi, obs := range []*QueryObs{e.q1, e.q2} {
+			if obs == nil || obs.reply == nil || !obs.Quiesced {
 				continue
 			}
-			over := false
-			if spec.Deterministic {
-				r.Eval(1)
-				r.Count("enforce_vs_off_compared", 1)
-				if obs.outcome() != ref.outcome() {
-					why := ""
-					switch {
-					case !obs.servfail():
-						why = "it is not SERVFAIL"
-					case len(obs.reply.Answer) > 0:
-						why = "it carries answer records"
-					case len(obs.Exhausted) == 0:
-						why = "no budget of the request tree was crossed"
-					case spec.Question.EDNS && len(obs.edeCodes) == 0:
-						why = "it carries no Extended DNS Error although the client used EDNS"
-					}
-					if why != "" {
-						c := ReplayCase{Seed: r.Seed, Index: index, Topology: spec, Stack: &e.cfg, Obs: obs, Ref: ref}
-						sig := "enforce/over-budget-reply-not-servfail"
-						switch {
-						case strings.HasPrefix(why, "no budget"):
-							sig = "enforce/reply-changed-without-budget-crossing"
-						case strings.HasPrefix(why, "it carries no Extended"):
-							sig = "enforce/over-budget-servfail-without-ede"
-						}
-						r.Violation(sig, fmt.Sprintf("query %d of %s under %s (outbound budget %d): unconstrained outcome [%s], enforce outcome [%s ede=%v exhausted=%v] — enforce may only replace the outcome by the over-budget SERVFAIL, but %s",
-							qi+1, spec.shape(), label, e.cfg.outboundBudget(), ref.outcome(), obs.outcome(), obs.EDE, obs.Exhausted, why), c)
-					} else {
-						over = true
-					}
-				} else if obs.servfail() && obs.budgetEDE {
-					over = true // same rcode as unconstrained, but it is the budget speaking
-				}
-			} else if obs.servfail() && obs.budgetEDE {
-				over = true
+			crossed := len(obs.Exhausted) > 0
+			if !crossed {
+				continue
 			}
-			if over {
-				r.Count("over_budget_servfails", 1)
-				if len(obs.edeCodes) > 0 {
-					r.Count("over_budget_servfails_with_ede", 1)
-				}
-				if !spec.Question.EDNS {
-					r.Count("over_budget_servfails_non_edns_client", 1)
-				}
-				dn := false
-				for _, x := range obs.Exhausted {
-					if x != "outbound_queries" && x != "internal_queries" {
-						dn = true
-					}
-					r.Count("over_budget_reason/"+x, 1)
-				}
-				if dn {
-					r.Count("enforce_dnssec_budget_servfails", 1)
+			r.Count("enforce_budget_crossed_runs", 1)
+			r.Count("class/"+class+"/enforce_budget_crossed_runs", 1)
+			for _, x := range obs.Exhausted {
+				r.Count("crossed_reason/"+x, 1)
+			}
+			if !obs.servfail() {
+				// an optional branch (DebitBestEffort: detached IPv6
+				// enrichment, …) stopped at the cap; the required work was
+				// done within the budget and the client got its answer
+				r.Count("enforce_crossed_only_optional_work_reply_not_servfail", 1)
+				continue
+			}
+			c := ReplayCase{Seed: r.Seed, Index: index, Topology: spec, Stack: &e.cfg, Obs: obs}
+			r.Eval(1)
+			over := obs.budgetEDE || !spec.Question.EDNS
+			if spec.Question.EDNS && len(obs.edeCodes) == 0 && resolvable {
+				// honest servers, resolvable data: this SERVFAIL is the
+				// budget's doing, and the client negotiated EDNS
+				r.Violation("enforce/over-budget-servfail-without-ede",
+					fmt.Sprintf("%s under %s (outbound budget %d): query %d crossed %v and was answered SERVFAIL without any Extended DNS Error although the client used EDNS", spec.shape(), e.cfg.Label, e.cfg.outboundBudget(), qi+1, obs.Exhausted), c)
+			}
+			if !over {
+				r.Count("enforce_crossed_servfail_with_other_ede", 1)
+				continue
+			}
+			r.Count("over_budget_servfails", 1)
+			if obs.budgetEDE {
+				r.Count("over_budget_servfails_with_ede", 1)
+			}
+			if !spec.Question.EDNS {
+				r.Count("over_budget_servfails_non_edns_client", 1)
+			}
+			dn := false
+			for _, x := range obs.Exhausted {
+				if x != "outbound_queries" && x != "internal_queries" {
+					dn = true
 				}
 			}
-			// follow-up: only where no genuine shared failure can exist
-			if qi == 0 && over && resolvable && e.q2 != nil && e.q2.reply != nil && e.q2.Quiesced {
-				f := e.q2
-				r.Eval(1)
-				r.Count("followup_checks", 1)
-				c := ReplayCase{Seed: r.Seed, Index: index, Topology: spec, Stack: &e.cfg, Obs: f, Ref: obs}
-				if f.hasEDE(dns.ExtendedErrorCodeCachedError) {
-					r.Violation("enforce/over-budget-servfail-served-from-failure-cache",
-						fmt.Sprintf("%s under %s: the first client got the over-budget SERVFAIL %v; the identical question from another client was answered %s with EDE 13 (Cached Error) %v, upstream packets %d", spec.shape(), label, obs.EDE, f.Rcode, f.EDE, f.Packets), c)
-				} else if f.Packets == 0 {
-					r.Violation("enforce/over-budget-servfail-followup-not-resolved-again",
-						fmt.Sprintf("%s under %s: the first client got the over-budget SERVFAIL %v; the identical question from another client was answered [%s ede=%v] without a single upstream packet", spec.shape(), label, obs.EDE, f.outcome(), f.EDE), c)
-				} else {
+			if dn && obs.hasEDE(dns.ExtendedErrorCodeDNSSECIndeterminate) {
+				r.Count("enforce_dnssec_budget_servfails", 1)
+			}
+
+			// follow-up: the identical question from another client. Only
+			// where no genuine shared failure can exist (honest, resolvable).
+			if qi != 0 || !resolvable || e.q2 == nil || e.q2.reply == nil || !e.q2.Quiesced {
+				continue
+			}
+			f := e.q2
+			r.Eval(1)
+			r.Count("followup_checks", 1)
+			fc := ReplayCase{Seed: r.Seed, Index: index, Topology: spec, Stack: &e.cfg, Obs: f, Ref: obs}
+			switch {
+			case f.hasEDE(dns.ExtendedErrorCodeCachedError):
+				r.Violation("enforce/over-budget-servfail-served-from-failure-cache",
+					fmt.Sprintf("%s under %s: the first client got the over-budget SERVFAIL %v; the identical question from another client was answered %s with EDE 13 (Cached Error) %v, upstream packets %d", spec.shape(), e.cfg.Label, obs.EDE, f.Rcode, f.EDE, f.Packets), fc)
+			case f.servfail() && f.Packets == 0 && len(f.Exhausted) == 0:
+				r.Violation("enforce/over-budget-servfail-followup-not-resolved-again",
+					fmt.Sprintf("%s under %s: the first client got the over-budget SERVFAIL %v; the identical question from another client was answered [%s ede=%v] without a single upstream packet and without crossing a budget of its own", spec.shape(), e.cfg.Label, obs.EDE, f.outcome(), f.EDE), fc)
+			default:
+				if f.Packets > 0 {
 					r.Count("followup_resolved_again_upstream", 1)
-					if !f.servfail() {
-						r.Count("followup_succeeded_with_warm_caches", 1)
-					}
+				}
+				if !f.servfail() {
+					r.Count("followup_succeeded_with_warm_caches", 1)
+				} else if len(f.Exhausted) > 0 {
+					r.Count("followup_crossed_its_own_budget", 1)
 				}
 			}
 		}
 	}
-	if spec.Index%11 == 0 {
-		s := map[string]any{"topology": spec.shape(), "question": spec.Question.String()}
-		for l, res := range results {
-			s[l] = fmt.Sprintf("budget=%d v6=%v q1[%s ede=%v pkts=%d debits=%d exh=%v] q2[%s pkts=%d]", res.cfg.outboundBudget(), res.cfg.V6,
-				res.q1.outcome(), res.q1.EDE, res.q1.Packets, res.q1.Debits, res.q1.Exhausted, obsOutcome(res.q2), obsPackets(res.q2))
+
+	// informational only (the statement does not relate enforce to off):
+	// an enforce first query whose tree crossed nothing, same IPv6 setting
+	for _, e := range order {
+		if e.cfg.Mode != "enforce" || !spec.Deterministic || e.cfg.V6 != off.cfg.V6 || e.q1.reply == nil || len(e.q1.Exhausted) > 0 {
+			continue
 		}
-		r.Sample(s)
+		if e.q1.outcome() == off.q1.outcome() {
+			r.Count("info_enforce_uncrossed_first_query_equals_off", 1)
+		} else {
+			r.Count("info_enforce_uncrossed_first_query_differs_from_off", 1)
+		}
 	}
+
+	s := map[string]any{"topology": spec.shape(), "index": index, "question": spec.Question.String()}
+	for l, res := range results {
+		s[l] = fmt.Sprintf("budget=%d v6=%v q1[%s ede=%v pkts=%d tcp=%d debits=%d crossed=%v] q2[%s ede=%v pkts=%d crossed=%v]", res.cfg.outboundBudget(), res.cfg.V6,
+			short(res.q1.outcome()), res.q1.EDE, res.q1.Packets, res.q1.TCPPackets, res.q1.Debits, res.q1.Exhausted,
+			short(obsOutcome(res.q2)), obsEDE(res.q2), obsPackets(res.q2), obsExhausted(res.q2))
+	}
+	r.Sample(s)
+}
+
+func short(s string) string {
+	if len(s) > 160 {
+		return s[:160] + "…"
+	}
+	return s
 }
 
 func obsOutcome(o *QueryObs) string {
@@ -276,6 +386,20 @@ func obsOutcome(o *QueryObs) string {
 	return o.outcome()
 }
 
+func obsEDE(o *QueryObs) []string {
+	if o == nil {
+		return nil
+	}
+	return o.EDE
+}
+
+func obsExhausted(o *QueryObs) []string {
+	if o == nil {
+		return nil
+	}
+	return o.Exhausted
+}
+
 func obsPackets(o *QueryObs) int {
 	if o == nil {
 		return 0
@@ -283,11 +407,12 @@ func obsPackets(o *QueryObs) int {
 	return o.Packets
 }
 
-// judgeStack applies the per-reply checks that need no reference run.
-func (run *runner) judgeStack(st *stackRun, res *stackResult) {
+// judgeReplies applies the per-reply checks that need no other run.
+func (run *runner) judgeReplies(w *world, res *stackResult) {
 	r := run.r
-	spec := st.w.spec
+	spec := w.spec
 	cfg := res.cfg
+	class := classOf(spec.Kind)
 	for qi, obs := range []*QueryObs{res.q1, res.q2} {
 		if obs == nil || obs.Watchdog {
 			continue
@@ -298,7 +423,8 @@ func (run *runner) judgeStack(st *stackRun, res *stackResult) {
 		for _, b := range obs.ContractBreak {
 			r.Count("contract_breach/"+strings.SplitN(b, ":", 2)[0], 1)
 		}
-		c := st.caseFor(obs)
+		cc := cfg
+		c := ReplayCase{Seed: r.Seed, Index: spec.Index, Topology: spec, Stack: &cc, Obs: obs}
 
 		// -- bounded progress: an answer or SERVFAIL, in time -----------------
 		switch {
@@ -315,6 +441,7 @@ func (run *runner) judgeStack(st *stackRun, res *stackResult) {
 		if obs.ElapsedMs > int64(cfg.QueryTimeoutMs+terminationMarginMs) {
 			r.Violation("termination/late-reply", fmt.Sprintf("%s under %s: reply to %s after %d ms (querytimeout %d ms + %d ms margin)", spec.shape(), cfg.Label, obs.Query, obs.ElapsedMs, cfg.QueryTimeoutMs, terminationMarginMs), c)
 		}
+		r.Count("terminated_in_time", 1)
 		r.Max("max_reply_ms", obs.ElapsedMs)
 		r.Count("rcode/"+cfg.Mode+"/"+obs.Rcode, 1)
 		switch obs.reply.Rcode {
@@ -324,6 +451,10 @@ func (run *runner) judgeStack(st *stackRun, res *stackResult) {
 		}
 		if obs.Packets > 0 {
 			r.Distinct(fmt.Sprintf("%s|%s|%d", spec.shape(), cfg.Mode, cfg.outboundBudget()))
+		}
+		if cfg.Mode == "off" {
+			r.Max("max_packets_per_query_firewall_off", int64(obs.Packets))
+			r.Max("class/"+class+"/max_packets_firewall_off", int64(obs.Packets))
 		}
 		if obs.Trees > 1 {
 			r.Count("queries_with_more_than_one_ledger", 1)
@@ -351,12 +482,19 @@ func (run *runner) judgeStack(st *stackRun, res *stackResult) {
 		r.Count("enforce_queries_counted", 1)
 		if obs.Packets > 0 {
 			r.Count("enforce_queries_with_upstream_packets", 1)
+			r.Count("class/"+class+"/enforce_queries_with_upstream_packets", 1)
 		}
 		if obs.Packets == budget {
 			r.Count("enforce_budget_fully_spent", 1)
 		}
 		r.Count("enforce_tcp_packets", obs.TCPPackets)
+		if obs.TCPPackets > 0 {
+			r.Count("enforce_queries_with_tcp_fallback", 1)
+		}
 		r.Count("enforce_packets_after_reply", obs.AfterReply)
+		if obs.AfterReply > 0 {
+			r.Count("enforce_queries_with_detached_packets_after_reply", 1)
+		}
 		r.Count("enforce_sink_packets", obs.SinkPackets)
 		r.Max("max_packets_per_query_pct_of_budget", int64(100*obs.Packets/budget))
 		if budget >= 128 {
@@ -367,8 +505,15 @@ func (run *runner) judgeStack(st *stackRun, res *stackResult) {
 				fmt.Sprintf("%s under %s: query %d (%s) caused %d packets at the scripted servers (tcp %d, after the reply %d) with max_outbound_queries=%d; ledger debits %d",
 					spec.shape(), cfg.Label, qi+1, obs.Query, obs.Packets, obs.TCPPackets, obs.AfterReply, budget, obs.Debits), c)
 		}
-		if obs.budgetEDE && (!obs.servfail() || len(obs.reply.Answer) > 0) {
-			r.Violation("enforce/over-budget-reply-not-servfail", fmt.Sprintf("%s under %s: reply to %s carries the work-budget EDE but is [%s]", spec.shape(), cfg.Label, obs.Query, obs.outcome()), c)
+		if obs.budgetEDE {
+			if !obs.servfail() || len(obs.reply.Answer) > 0 {
+				r.Violation("enforce/over-budget-reply-not-servfail", fmt.Sprintf("%s under %s: reply to %s carries the work-budget EDE but is [%s]", spec.shape(), cfg.Label, obs.Query, obs.outcome()), c)
+			}
+			if len(obs.Exhausted) == 0 {
+				// the limit error reached a client whose own request tree
+				// crossed nothing: the failure was shared
+				r.Violation("enforce/budget-servfail-without-own-crossing", fmt.Sprintf("%s under %s: query %d (%s) was answered [%s ede=%v] although no ledger of its request tree recorded a crossed budget (upstream packets %d of %d)", spec.shape(), cfg.Label, qi+1, obs.Query, obs.outcome(), obs.EDE, obs.Packets, budget), c)
+			}
 		}
 	}
 }
